@@ -642,9 +642,11 @@ def inline_new_helpers(tr: dict, specs: dict, locked_fns: set, force: set = froz
             if k not in force and (k in locked_fns or (sp and (sp.contract.strip() or sp.trusted))):
                 continue
             b = f["body"]
-            if (re.search(r"\breturn\b", b) or "?" in b or re.search(r"__vx_\w+!", b) or f.get("generics") or k in (f.get("callees") or [])
-                    or f.get("in_trait_decl") or f.get("trait")):
-                continue
+            gen_names = re.findall(r"(?:^|,)\s*(?:const\s+)?([A-Za-z_]\w*)", f.get("generics") or "")
+            if (re.search(r"\breturn\b", b) or "?" in b or re.search(r"__vx_\w+!", b) or k in (f.get("callees") or [])
+                    or f.get("in_trait_decl") or f.get("trait")
+                    or any(re.search(r"\b%s\b" % re.escape(g_), b) for g_ in gen_names)):
+                continue       # (a generic helper is fine as long as its body never names a type parameter)
             if not any(k in (g.get("callees") or []) for g in fns if g is not f):
                 continue
             cand = f
@@ -682,7 +684,11 @@ def inline_new_helpers(tr: dict, specs: dict, locked_fns: set, force: set = froz
                     if p["ty"].replace(" ", "") in ("&Env", "&mutEnv"):
                         bad = True     # would need a re-borrow of the environment under another name
                         break
-                    lets.append(f"let {p['name']}: {p['ty']} = {a};")
+                    gen_here = re.findall(r"(?:^|,)\s*(?:const\s+)?([A-Za-z_]\w*)", cand.get("generics") or "")
+                    if any(re.search(r"\b%s\b" % re.escape(g_), p["ty"]) for g_ in gen_here):
+                        lets.append(f"let {p['name']}: _ = {a};")      # the parameter's type mentions a type parameter: inferred
+                    else:
+                        lets.append(f"let {p['name']}: {p['ty']} = {a};")
                 if bad:
                     ok_all = False
                     pos = m.end()
